@@ -12,6 +12,8 @@ use serde_json::Value;
 use serde_json::json;
 
 struct ScriptedLoader {
+  /// content served for a Module answer
+  content: Vec<u8>,
   x: &'static str,
   /// None: the version manifest is not served; Some(json): served
   version_meta: Option<String>,
@@ -60,7 +62,7 @@ impl Loader for ScriptedLoader {
     let i = self.note("load", &options);
     let a = self.answers.get(i).cloned().unwrap_or_else(|| "NotFound".to_string());
     let r: LoadResult = match a.as_str() {
-      "Module" => Ok(Some(LoadResponse::Module { content: Arc::from(Vec::<u8>::new()), mtime: None, specifier: specifier.clone(), maybe_headers: None })),
+      "Module" => Ok(Some(LoadResponse::Module { content: Arc::from(self.content.clone()), mtime: None, specifier: specifier.clone(), maybe_headers: None })),
       "Redirect" => Ok(Some(LoadResponse::Redirect { specifier: ModuleSpecifier::parse(Y).unwrap() })),
       "SelfRedirect" => Ok(Some(LoadResponse::Redirect { specifier: specifier.clone() })),
       "External" => Ok(Some(LoadResponse::External { specifier: specifier.clone() })),
@@ -120,7 +122,9 @@ pub fn run_op(op: &Value) -> Value {
     }
   }
   let analyzer = A(ModuleInfo { dependencies: vec![dep], ..Default::default() });
+  let served: Vec<u8> = if op["content_bom"].as_bool().unwrap_or(false) { vec![0xEF, 0xBB, 0xBF, b'1'] } else { vec![] };
   let loader = ScriptedLoader {
+    content: served.clone(),
     x, version_meta,
     answers: op["answers"].as_array().unwrap().iter().map(|a| a.as_str().unwrap().to_string()).collect(),
     calls: RefCell::new(vec![]),
@@ -167,6 +171,14 @@ pub fn run_op(op: &Value) -> Value {
     _ => None,
   };
   let calls: Vec<Value> = loader.calls.borrow().iter().map(|c| json!({"cache_setting": c["cache_setting"], "checksum": c["checksum"]})).collect();
+  if op.get("source_report").is_some() {
+    // what the graph stores for the file after the deferred content load: the decoded text and whether the original bytes it hands out are the served ones
+    return match graph.try_get(&xs) {
+      Ok(Some(Module::Js(m))) => json!({"text_is_the_decoding": &*m.source.text == "1", "original_bytes_are_the_loaded_bytes": m.source.try_get_original_bytes().map(|b| *b == *served)}),
+      Ok(_) => json!({"text_is_the_decoding": null, "original_bytes_are_the_loaded_bytes": null}),
+      Err(e) => json!({"error": err_name(e)}),
+    };
+  }
   if op.get("only_referrer_flag").is_some() {
     return json!({"err_has_referrer": err_has_referrer});
   }
@@ -245,7 +257,7 @@ pub fn run_manifest_lock_op(op: &Value) -> Value {
     }
   }
   let analyzer = A(ModuleInfo { dependencies: vec![dep], ..Default::default() });
-  let loader = ScriptedLoader { x: REG_X, version_meta: Some(meta.clone()), answers: vec!["Module".to_string()], calls: RefCell::new(vec![]), max_redirects: 10 };
+  let loader = ScriptedLoader { content: vec![], x: REG_X, version_meta: Some(meta.clone()), answers: vec!["Module".to_string()], calls: RefCell::new(vec![]), max_redirects: 10 };
   let nv = deno_semver::package::PackageNv::from_str("@a/b@1.0.0").unwrap();
   let mut locker = HashMapLocker::default();
   let old = "0".repeat(64);
